@@ -33,6 +33,9 @@ for f in sorted(glob.glob(sys.argv[1]+'/embedded/selftest/*.go')):
         print(m.group(1),m.group(2),m.group(3) or '-',fm.group(1))
 PY
 )
+# the replay machinery: counter-models of loop-free functions must replay on the real code
+rp=$(GOVC_REPO=$M timeout 600 ./bin/govc fn -replay -timeout 10 -out /tmp/govc-selftest -pkg ./embedded/selftest idxOOB divZero maxWrong 2>&1 | grep -c "confirmed=true")
+if [ "$rp" -ge 3 ]; then echo "ok   replays confirmed ($rp)"; else echo "SELFTEST-BAD replay: only $rp of the expected counter-models replayed"; bad=$((bad+1)); fi
 rm -rf /tmp/govc-selftest
 echo "selftest: $bad unexpected verdicts"
 [ $bad -eq 0 ]
